@@ -260,6 +260,9 @@ impl RollingSummary {
             .iter()
             .filter(|b| if let Some(cutoff) = cutoff { b.begin > cutoff } else { true })
             .map(|b| &b.summary)
+            // A bucket whose only samples were infinite holds an empty summary (`Summary::add` drops
+            // them); merging an empty sketch can reset the merged min/max to their initial +/-inf.
+            .filter(|s| !s.is_empty())
             .fold(&mut acc, |acc, item| {
                 acc.merge(item).expect("merge can only fail if summary config inconsistent");
                 acc
